@@ -76,7 +76,22 @@ func genMsg() *rapid.Generator[string] {
 
 func genAttrs(t *rapid.T) []vlib.ExpAttr {
 	strs := rapid.OneOf(vlib.GenPlainString(), vlib.GenAnyString())
-	return vlib.GenAttrs(t, vlib.AttrGen{Keys: rapid.StringMatching(`[a-e]{1,2}`), Vals: vlib.GenValue(strs), MaxDepth: 3, MaxLen: 6}, 0)
+	keys := rapid.OneOf(rapid.StringMatching(`[a-e]{1,2}`), rapid.StringMatching(`[a-e]{1,2}`), rapid.StringMatching(`[a-z]{1,4}`),
+		rapid.SampledFrom([]string{"time", "level", "msg", "caller", "logger", "error", "zz", ""}))
+	as := vlib.GenAttrs(t, vlib.AttrGen{Keys: keys, Vals: vlib.GenValue(strs), MaxDepth: 3, MaxLen: 6}, 0)
+	// the encoders special-case an attribute named "time" that holds a time.Time: make that common
+	var fix func(as []vlib.ExpAttr)
+	fix = func(as []vlib.ExpAttr) {
+		for i := range as {
+			if as[i].IsGroup {
+				fix(as[i].Group)
+			} else if as[i].Key == "time" && rapid.Bool().Draw(t, "timeValued") {
+				as[i].Val = vlib.Value{Kind: "time", V: vlib.GenTime().Draw(t, "timeAttr")}
+			}
+		}
+	}
+	fix(as)
+	return as
 }
 
 var allSevs = append(append([]slog.Level{}, vlib.Builtins...), custColoured, custPlain, custRaw)
